@@ -15,6 +15,8 @@ struct Pair {
     proto: String,
     /// recreate a fresh server decoder (same credentials) for another mutation of the same request
     remake_server: Box<dyn Fn(&mut Session, bool) -> String>,
+    /// another client of the same credentials and target (a second connection of the same user)
+    remake_client: Box<dyn Fn(&mut Session) -> String>,
 }
 
 fn make_pair(s: &mut Session, rng: &mut Rng, proto: &'static str, ws: bool) -> Option<Pair> {
@@ -27,9 +29,14 @@ fn make_pair(s: &mut Session, rng: &mut Rng, proto: &'static str, ws: bool) -> O
         s.run(&format!("vm.client {} uuid={} cipher={} cmd=tcp addr={}", c, uuid, cipher, addr));
         s.run(&format!("vm.server {} users=a:{}{}", sv, uuid, ad));
         let u = uuid.clone();
+        let (u2, a2) = (uuid.clone(), addr.clone());
         return Some(Pair { client: c, server: sv, addr, first_min_c2s: 1, first_min_s2c: 1, proto: proto.into(), remake_server: Box::new(move |s, ws| {
             let n = s.fresh("s");
             s.run(&format!("vm.server {} users=a:{}{}", n, u, if ws { " adapter=ws" } else { "" }));
+            n
+        }), remake_client: Box::new(move |s| {
+            let n = s.fresh("c");
+            s.run(&format!("vm.client {} uuid={} cipher={} cmd=tcp addr={}", n, u2, cipher, a2));
             n
         }) });
     }
@@ -42,6 +49,7 @@ fn make_pair(s: &mut Session, rng: &mut Rng, proto: &'static str, ws: bool) -> O
     s.run(&format!("ss.new {} {} {}", c, cc, addr));
     s.run(&format!("ss.new {} {} -{}", sv, sc, ad));
     let (pw, users) = (cfg.server_password.clone(), cfg.users.clone());
+    let (cpw, a2) = (cfg.client_password.clone(), addr.clone());
     Some(Pair {
         client: c,
         server: sv,
@@ -54,6 +62,13 @@ fn make_pair(s: &mut Session, rng: &mut Rng, proto: &'static str, ws: bool) -> O
             let (sc, n) = (s.fresh("sc"), s.fresh("s"));
             s.run(&format!("ss.sctx {} cipher={} password={} users={}", sc, cipher, pw, users));
             s.run(&format!("ss.new {} {} -{}", n, sc, if ws { " adapter=ws" } else { "" }));
+            n
+        }),
+        // (its own context: the replay cache of the first connection must not mask the binding check)
+        remake_client: Box::new(move |s| {
+            let (cc, n) = (s.fresh("cc"), s.fresh("c"));
+            s.run(&format!("ss.cctx {} cipher={} password={}", cc, cipher, cpw));
+            s.run(&format!("ss.new {} {} {}", n, cc, a2));
             n
         }),
     })
@@ -204,9 +219,25 @@ pub fn generate(s: &mut Session, tier: &str, rng: &mut Rng) {
                         if binds_direction && !d.data.is_empty() {
                             s.oracle_fail(&format!("{}:reflect-c", key), "a client accepted its own request reflected back as a response");
                         }
-                        // and another session's valid response (not bound to this request)
-                        let p3 = make_pair(s, rng, proto, false);
-                        let _ = p3;
+
+                    }
+                }
+                s.mark_nontrivial();
+                // splice across connections: the valid response to connection X of this user, delivered on a second
+                // connection Y of the same user (same key, own request sent): Y must release nothing of it
+                s.subcase(&format!("{}:cross-connection", key));
+                if binds_direction {
+                    let c2 = (p.remake_client)(s);
+                    if encode_all(s, &c2, &[rng.bytes(33)]).is_some() {
+                        let style = *rng.pick(&[0u64, 3]);
+                        let pieces = cut(rng, &resp, p.first_min_s2c, style);
+                        let d = feed_all(s, &c2, &pieces, true);
+                        if d.panic {
+                            s.oracle_fail(&format!("{}:cross-connection:panic", key), "decoder panicked on another connection's response");
+                        }
+                        if !d.data.is_empty() {
+                            s.oracle_fail(&format!("{}:cross-connection", key), "a client released the response that belongs to another connection (not bound to its own request)");
+                        }
                     }
                 }
                 s.mark_nontrivial();
